@@ -51,6 +51,7 @@ func (c *connection) onHup(p Poll) error {
 				// the handler sees the remaining input first; its task runs the close callbacks on exit
 				return nil
 			}
+			verifPoint(vpOnHupBeforeCloseLock, c, 0)
 			if !c.lock(processing) {
 				// a handler task is running: it offers late input and runs the close callbacks on exit
 				return nil
